@@ -40,7 +40,19 @@ impl PrettyMonochromeRenderer {
 impl Renderer for PrettyMonochromeRenderer {
     fn render(&self, outcomes: &[&Outcome]) -> Result<String> {
         let rendered = self.0.render(outcomes)?;
-        strip_colors(&rendered)
+        // line by line: the text of a test (title, shell expression) may hold
+        // the beginning of an escape sequence that never ends, which must not
+        // swallow the rest of the rendering
+        let mut stripped = String::with_capacity(rendered.len());
+        for line in rendered.split_inclusive('\n') {
+            let (content, newline) = match line.strip_suffix('\n') {
+                Some(content) => (content, "\n"),
+                None => (line, ""),
+            };
+            stripped.push_str(&strip_colors(content)?);
+            stripped.push_str(newline);
+        }
+        Ok(stripped)
     }
 }
 
